@@ -346,6 +346,23 @@ func c07Run(ctx *core.Ctx) {
 	}
 	runAll(literal, "literal-constants", false)
 	runAll(constPairExprs(), "constant-pairs", false)
+	// the destination named inside the expression itself: a column evaluated onto itself (valid: unchanged), and a
+	// name that exists nowhere used as destination AND operand (an unknown column, whatever the destination is called)
+	for _, name := range []string{"i", "f", "b", "s", "e", "nosuchcol", "new", "colcol-temp-0"} {
+		for _, e := range []model.Expr{model.ColE(name), model.Call("abs", model.ColE(name)), model.Call("+", model.ColE(name), model.ColE(name)),
+			model.Call("+", model.ColE(name), model.ColE("i")), model.Call("+", model.ColE("i"), model.ColE(name)), model.Call("str", model.ColE(name)),
+			model.Call("+", model.Call("abs", model.ColE(name)), model.IntE(1))} {
+			for _, style := range []string{"expr", "raw", "val"} {
+				for _, user := range []bool{true, false} {
+					for shape := 0; shape < model.NShapes+8; shape++ {
+						if ctx.Mine() {
+							exec(evalCase{Shape: shape, Dst: name, Expr: e, Style: style, User: user})
+						}
+					}
+				}
+			}
+		}
+	}
 	if !ctx.Quick() {
 		red := typedExprs(c07Alphabet(true), 3, in0)
 		var d3 []model.Expr
